@@ -6,7 +6,7 @@
    only `sync_flush_law` for them — an explicit hypothesis of the theorem, so
    Print Assumptions stays "Closed under the global context". *)
 From Coq Require Import List NArith ZArith Ascii Bool.
-From SV Require Import Lib.Bytes Model.Wire Proofs.Wire_lemmas Model.Assemble Proofs.Assemble_lemmas Gen.Consts.
+From SV Require Import Lib.Bytes Model.Wire Proofs.Wire_lemmas Model.Assemble Proofs.Assemble_lemmas Proofs.AssembleSync_lemmas Gen.Consts.
 Import ListNotations.
 Local Open Scope N_scope.
 
@@ -141,6 +141,46 @@ Proof.
   intros lbs later. rewrite server_stdout_sync_first. split; reflexivity.
 Qed.
 Print Assumptions c18_server_sync_first.
+
+(* (7b) c18_connected_iff_announced.  "... until the server has announced itself, so both
+       ends always speak the same protocol version": the client goes on past its
+       announcement check ("Connected to server.") EXACTLY when ssh is alive and the
+       12 bytes that follow the second NUL of the server's output are the announcement
+       the client expects — for every output, every delivery cutting, seed hosts or not.
+       (6) has the "only if" half; this adds the "if" half and spells out the
+       stream-level meaning of hs_spec. *)
+Theorem c18_connected_iff_announced : forall content content2 e,
+  Forall nonempty (ce_server e) ->
+  (In CSyncOk (client_startup content content2 e) <->
+   (ce_poll e = None /\
+    takeN (lenN client_sync) (after_nul (after_nul (concat (ce_server e)))) = client_sync)).
+Proof.
+  intros c1 c2 e HF. rewrite (sync_ok_exactly c1 c2 e HF), hs_spec_exact. reflexivity.
+Qed.
+Print Assumptions c18_connected_iff_announced.
+
+(* (7c) c18_short_announcement_refused.  A server output that ENDS before the 12 bytes of
+       the announcement are complete (a proper prefix of it — "SSHUTTLE", "S" —, nothing
+       after the two NULs, no second NUL, nothing at all) never gets the client past the
+       check, whatever the state of the ssh process. *)
+Theorem c18_short_announcement_refused : forall content content2 e,
+  Forall nonempty (ce_server e) ->
+  lenN (after_nul (after_nul (concat (ce_server e)))) < lenN client_sync ->
+  ~ In CSyncOk (client_startup content content2 e).
+Proof. intros c1 c2 e. apply sync_short_refused. Qed.
+Print Assumptions c18_short_announcement_refused.
+
+Example c18_ex_short_announcement :
+  (* the hypothesis of (7c) is satisfiable and its conclusion is not vacuous: the same
+     stream completed by its last byte is accepted *)
+  let e s := mkCenv [s] None None None in
+  let cut := [NUL; NUL] ++ takeN 11 client_sync in
+  (lenN (after_nul (after_nul cut)) <? lenN client_sync) = true /\
+  existsb (fun ev => match ev with CSyncOk => true | _ => false end)
+          (client_startup [] [] (e cut)) = false /\
+  existsb (fun ev => match ev with CSyncOk => true | _ => false end)
+          (client_startup [] [] (e ([NUL; NUL] ++ client_sync))) = true.
+Proof. vm_compute. repeat split. Qed.
 
 (* (8) End to end: what the client has written when it starts waiting for the
        sync string, cut arbitrarily, makes the remote interpreter hold the
